@@ -324,6 +324,43 @@ def run_model_sharded(kind, cases_file, out_file, shards=NCPU, timeout=1800):
     return True, ""
 
 
+def canary(prop, kind, cases_file, quick_n=48, thorough_n=400, tier="quick", pick=None):
+    """Extraction canary: a sample of the SAME case lines the extracted driver ran is turned, by the driver itself,
+    into Coq `Example`s (model function applied to the arguments written as Gallina terms = the value the extracted
+    code computed) and re-computed inside the kernel with vm_compute.  Returns (ok, n_examples, message)."""
+    if not os.path.exists(cases_file) or not os.path.exists(DRIVER):
+        return True, 0, "no cases"
+    lines = [l for l in open(cases_file).read().split("\n") if l and not l.startswith("#")]
+    if pick:
+        lines = pick(lines)
+    n = thorough_n if tier == "thorough" else quick_n
+    # the shortest cases first (kernel evaluation of the spec-style functions is quadratic), spread over the file
+    step = max(1, len(lines) // (4 * n))
+    sample = sorted(lines[::step], key=len)[:n]
+    d = os.path.join(BUILD, "canary", prop + "-" + kind)
+    shutil.rmtree(d, ignore_errors=True)
+    os.makedirs(d)
+    open(os.path.join(d, "sample.txt"), "w").write("\n".join(sample) + "\n")
+    p = subprocess.run(["bash", "-c", "ulimit -s unlimited 2>/dev/null; exec %s canary-%s %s" % (DRIVER, kind, os.path.join(d, "sample.txt"))],
+                       stdout=subprocess.PIPE, stderr=subprocess.PIPE, timeout=600, text=True)
+    if p.returncode != 0:
+        return False, 0, "driver canary-%s failed: %s" % (kind, p.stderr[-300:])
+    nex = p.stdout.count("\nExample ")
+    open(os.path.join(d, "Cases.v"), "w").write(p.stdout)
+    if nex == 0:
+        return True, 0, "no case small enough for the kernel"
+    rc, out = sh(["timeout", "900", "coqc", "-q", "-Q", COQ, "Copia", os.path.join(d, "Cases.v")], timeout=960)
+    if rc != 0:
+        m = re.search(r"line (\d+).*?\n(Error:.*)", out, re.S)
+        which = ""
+        if m:
+            src = p.stdout.split("\n")
+            ln = int(m.group(1)) - 1
+            which = (src[ln][:200] if 0 <= ln < len(src) else "") + " :: " + " ".join(m.group(2).split())[:300]
+        return False, nex, "extraction canary: the kernel (vm_compute) and the extracted OCaml model disagree: " + (which or out[-400:])
+    return True, nex, "%d cases re-computed inside the kernel (vm_compute) agree with the extracted model" % nex
+
+
 # ---------------------------------------------------------------- Rust side
 HARNESS_DIR = os.path.join(VERIF, "harness")
 _SUFFIX = "" if REPO == "/repo" else "-" + hashlib.sha256(REPO.encode()).hexdigest()[:8]   # one cargo target dir per checkout
